@@ -540,3 +540,127 @@ func TestPoolReuseAcrossThreads(t *testing.T) {
 		t.Fatalf("use-after-Put not observed: %+v", r.Findings)
 	}
 }
+
+// ---- sync.Pool as a data choice, sequential prefix -------------------------------------------
+
+type poolEnv struct{ p sync.Pool }
+
+type pooledBuf struct {
+	id    int
+	owner string
+	out   *[]string // where the holder writes: set by the holder after Get
+}
+
+// Get may return ANY value Put before, or a fresh one: all alternatives are explored.
+func TestPoolGetIsADataChoice(t *testing.T) {
+	sc := &vrt.Scenario{Name: "pool-choice", Shared: true,
+		Setup: func() any {
+			e := &poolEnv{p: sync.Pool{New: func() any { return &pooledBuf{id: 0} }}}
+			e.p.Put(&pooledBuf{id: 1})
+			e.p.Put(&pooledBuf{id: 2})
+			return e
+		},
+		Threads: []func(any) any{
+			func(e any) any { return e.(*poolEnv).p.Get().(*pooledBuf).id },
+			func(e any) any { return e.(*poolEnv).p.Get().(*pooledBuf).id },
+		}}
+	for _, o := range []vrt.Options{{Bound: 0}, {Complete: true}, {Complete: true, NoSleep: true}} {
+		r := vrt.Explore(sc, o)
+		if r.HarnessError != "" || len(r.Findings) != 0 {
+			t.Fatalf("%+v: %s %+v", o, r.HarnessError, r.Findings)
+		}
+		got := map[string]bool{}
+		for k := range r.Outcomes {
+			got[k[:strings.Index(k, " ##")]] = true
+		}
+		// every pair (a, b) with a, b in {0 fresh, 1, 2}, except the same pooled value twice
+		want := []string{"0 || 0", "0 || 1", "0 || 2", "1 || 0", "2 || 0", "1 || 2", "2 || 1"}
+		for _, w := range want {
+			if !got[w] {
+				t.Fatalf("%+v: alternative %q never explored: %v", o, w, got)
+			}
+		}
+		if got["1 || 1"] || got["2 || 2"] {
+			t.Fatalf("%+v: one pooled value handed out twice: %v", o, got)
+		}
+	}
+}
+
+// poolUser is what a pooled encoder does: take a value, point it at the caller's own sink,
+// write the caller's data through it, give it back.
+func poolUser(tag string) func(any) any {
+	return func(e any) any {
+		p := &e.(*poolEnv).p
+		var sink []string
+		b := p.Get().(*pooledBuf)
+		b.out = &sink
+		vrt.Yield() // the holder works for a while
+		*b.out = append(*b.out, "data of "+tag)
+		p.Put(b)
+		return strings.Join(sink, ",")
+	}
+}
+
+// A value released twice by an EARLIER operation (sequential prefix) can be handed to two later
+// operations: reported only through its effect (differential oracle), needs one preemption,
+// and the recorded schedule (with its data choices) replays.
+func TestPoolDoublePutInPrefixShowsInLaterOperations(t *testing.T) {
+	mk := func(name string, puts int) *vrt.Scenario {
+		return &vrt.Scenario{Name: name,
+			Setup: func() any { return &poolEnv{p: sync.Pool{New: func() any { return &pooledBuf{} }}} },
+			Prefix: func(e any) {
+				p := &e.(*poolEnv).p
+				b := p.Get().(*pooledBuf)
+				for i := 0; i < puts; i++ {
+					p.Put(b)
+				}
+			},
+			Threads: []func(any) any{poolUser("one"), poolUser("two")}}
+	}
+	r := vrt.Explore(mk("pool-prefix-single-put", 1), vrt.Options{Bound: 2})
+	if r.HarnessError != "" || len(r.Findings) != 0 {
+		t.Fatalf("false alarm after a correct prefix: %s %+v", r.HarnessError, r.Findings)
+	}
+	r = vrt.Explore(mk("pool-prefix-double-put", 2), vrt.Options{Bound: 0})
+	if r.HarnessError != "" || len(r.Findings) != 0 {
+		t.Fatalf("double Put must not be reported by itself (no overlap at bound 0): %s %+v", r.HarnessError, r.Findings)
+	}
+	r = vrt.Explore(mk("pool-prefix-double-put", 2), vrt.Options{Bound: 1})
+	f := has(r, "differential")
+	if f == nil {
+		t.Fatalf("value handed to two holders not observed: %+v", r.Findings)
+	}
+	for i := 0; i < 3; i++ {
+		rr := vrt.Replay(mk("pool-prefix-double-put", 2), f.Schedule, vrt.Options{})
+		if rr.HarnessError != "" || has(rr, "differential") == nil {
+			t.Fatalf("recorded schedule does not replay: %s %+v", rr.HarnessError, rr.Findings)
+		}
+	}
+	// the two searches agree, with and without the reduction
+	brute := vrt.Explore(mk("pool-prefix-double-put", 2), vrt.Options{Complete: true, NoSleep: true})
+	sleep := vrt.Explore(mk("pool-prefix-double-put", 2), vrt.Options{Complete: true})
+	if brute.HarnessError != "" || sleep.HarnessError != "" || !brute.Exhaustive || !sleep.Exhaustive {
+		t.Fatalf("%s / %s", brute.HarnessError, sleep.HarnessError)
+	}
+	if fmt.Sprint(classes(brute)) != fmt.Sprint(classes(sleep)) || has(sleep, "differential") == nil || brute.DistinctTraces != sleep.DistinctTraces {
+		t.Fatalf("searches disagree: %v (%d traces) vs %v (%d traces)", classes(brute), brute.DistinctTraces, classes(sleep), sleep.DistinctTraces)
+	}
+	t.Logf("double put: bounded %v schedules; brute force %d, sleep sets %d (+%d blocked), %d traces", r.PerBound, brute.Schedules, sleep.Schedules, sleep.SleepBlocked, sleep.DistinctTraces)
+}
+
+// State left behind by the prefix must not show in a later operation: the sequential references
+// are computed on a fresh instance WITHOUT the prefix.
+func TestPrefixLeakIsADifferentialFinding(t *testing.T) {
+	type env struct{ last string }
+	sc := &vrt.Scenario{Name: "prefix-leak",
+		Setup:  func() any { return &env{} },
+		Prefix: func(e any) { e.(*env).last = "earlier request" },
+		Threads: []func(any) any{
+			func(e any) any { return "mine" + e.(*env).last },
+			func(e any) any { return "other" },
+		}}
+	r := vrt.Explore(sc, vrt.Options{Bound: 0})
+	if f := has(r, "differential"); f == nil || len(r.Findings) != 1 {
+		t.Fatalf("leak from the prefix operation not reported exactly once: %s %+v", r.HarnessError, r.Findings)
+	}
+}
